@@ -79,7 +79,7 @@ pub struct FaultPlan {
     pub clock: Vec<ClockFault>,
 }
 
-#[derive(Clone, Debug)]
+#[derive(Clone)]
 pub struct RunConfig {
     pub seed: u64,
     pub strategy: StrategySpec,
@@ -93,8 +93,10 @@ pub struct RunConfig {
     /// tally_realloc (picoseconds).
     pub overheads: [u128; 4],
     pub watchdog: Duration,
-    /// Record full vector clocks in every event (else only for user events).
     pub name: &'static str,
+    /// Per-run harness context reachable from any simulated thread (also
+    /// from `Drop` impls, which have no captured environment).
+    pub user: Option<Arc<dyn std::any::Any + Send + Sync>>,
 }
 
 impl Default for RunConfig {
@@ -109,6 +111,7 @@ impl Default for RunConfig {
             overheads: [0; 4],
             watchdog: Duration::from_secs(20),
             name: "run",
+            user: None,
         }
     }
 }
@@ -178,6 +181,8 @@ pub struct RunResult {
     pub sync_sig: u64,
     /// Message of a panic that escaped the scenario's main closure.
     pub main_panic: Option<String>,
+    /// Clock reads made while `Timer::precision()` was measuring.
+    pub precision_reads: u64,
 }
 
 impl RunResult {
@@ -298,6 +303,8 @@ pub struct State {
     pub(crate) main_panic: Option<String>,
     pub(crate) precision_override: Option<u128>,
     pub(crate) overheads: [u128; 4],
+    pub(crate) user: Option<Arc<dyn std::any::Any + Send + Sync>>,
+    pub(crate) precision_reads: u64,
 }
 
 pub(crate) enum Step<R> {
@@ -507,8 +514,13 @@ impl State {
         if let Some(&skew) = self.clock.cfg.skew.get(tid) {
             raw = raw.wrapping_add(skew as u64);
         }
-        self.tick(tid);
-        self.log(tid, Ev::ClockRead { which, raw, phase });
+        if phase == Phase::Precision {
+            // Thousands of back-to-back reads: counted, not logged.
+            self.precision_reads += 1;
+        } else {
+            self.tick(tid);
+            self.log(tid, Ev::ClockRead { which, raw, phase });
+        }
         raw
     }
 }
@@ -867,6 +879,8 @@ pub fn run(cfg: RunConfig, main: Box<dyn FnOnce() + Send>) -> RunResult {
         main_panic: None,
         precision_override: cfg.precision_override,
         overheads: cfg.overheads,
+        user: cfg.user.clone(),
+        precision_reads: 0,
     };
     const F: AtomicBool = AtomicBool::new(false);
     let sim = Arc::new(Sim {
@@ -933,6 +947,7 @@ pub fn run(cfg: RunConfig, main: Box<dyn FnOnce() + Send>) -> RunResult {
         probes: std::mem::take(&mut st.probes),
         sync_sig: sync_sig.finish(),
         main_panic: st.main_panic.take(),
+        precision_reads: st.precision_reads,
     };
     drop(st);
     for h in handles {
@@ -1029,4 +1044,10 @@ impl Sim {
         let st = self.lock();
         self.fail(st, Failure::Abort { tid })
     }
+}
+
+/// The per-run harness context, if the calling thread is simulated.
+pub fn user() -> Option<Arc<dyn std::any::Any + Send + Sync>> {
+    let (s, _) = ctx()?;
+    s.lock().user.clone()
 }
